@@ -1222,4 +1222,185 @@ theorem manifest_consumes : manifest.Consumes := by
       | ruid b => simp [encNFId] at henc; subst henc; simp
     | addressReservation i => simp [manifest, encManifestCustom] at henc; subst henc; simp [leBytes_length]
   simp; omega
+/-! ### size of decoded values -/
+
+mutual
+/-- Number of `Value` nodes (what the decoder allocates, up to the constant size of a node). -/
+def Value.nodes {X Y : Type} : Value X Y → Nat
+  | .enum _ fs => 1 + nodesList fs
+  | .array _ es => 1 + nodesList es
+  | .tuple fs => 1 + nodesList fs
+  | .map _ _ es => 1 + nodesEntries es
+  | _ => 1
+def nodesList {X Y : Type} : List (Value X Y) → Nat
+  | [] => 0
+  | v :: vs => v.nodes + nodesList vs
+def nodesEntries {X Y : Type} : List (Value X Y × Value X Y) → Nat
+  | [] => 0
+  | (k, v) :: es => k.nodes + v.nodes + nodesEntries es
+end
+
+theorem decMany_size {α : Type} (f : Bytes → R α) (size : α → Nat)
+    (hel : ∀ bs a rest, f bs = .ok (a, rest) → size a + rest.length ≤ bs.length) :
+    ∀ (n : Nat) (bs : Bytes) (as : List α) (rest : Bytes), decMany f n bs = .ok (as, rest) →
+      (as.map size).sum + rest.length ≤ bs.length := by
+  intro n
+  induction n with
+  | zero => intro bs as rest h; simp [decMany] at h; obtain ⟨rfl, rfl⟩ := h; simp
+  | succ n ih =>
+    intro bs as rest h
+    simp only [decMany] at h
+    split at h
+    · simp at h
+    · rename_i a bs' hf
+      split at h
+      · simp at h
+      · rename_i as' bs'' hm
+        simp at h
+        obtain ⟨rfl, rfl⟩ := h
+        have h1 := hel _ _ _ hf
+        have h2 := ih _ _ _ hm
+        simp; omega
+
+theorem nodesList_eq {X Y : Type} (vs : List (Value X Y)) : nodesList vs = (vs.map Value.nodes).sum := by
+  induction vs with
+  | nil => rfl
+  | cons v vs ih => simp [nodesList, ih]
+
+theorem nodesEntries_eq {X Y : Type} (es : List (Value X Y × Value X Y)) :
+    nodesEntries es = (es.map (fun e => e.1.nodes + e.2.nodes)).sum := by
+  induction es with
+  | nil => rfl
+  | cons e es ih => obtain ⟨k, v⟩ := e; simp [nodesEntries, ih]
+
+/-- Every decoded node is paid for by at least one input byte. -/
+theorem decBody_nodes {X Y : Type} (F : Flavour X Y) (hc : F.Consumes) (max rem : Nat) :
+    ∀ (vk : VK X) (bs : Bytes) (v : Value X Y) (rest : Bytes), decBody F max rem vk bs = .ok (v, rest) →
+      v.nodes + rest.length ≤ bs.length := by
+  induction rem with
+  | zero => intro vk bs v rest h; simp [decBody] at h
+  | succ r ih =>
+    intro vk bs v rest h
+    have hfield : ∀ bs a rest, decField F (decBody F max r) bs = .ok (a, rest) → a.nodes + rest.length ≤ bs.length := by
+      intro bs a rest ha
+      simp only [decField] at ha
+      split at ha
+      · simp at ha
+      · rename_i vk' bs' hk
+        have := readValueKind_shrinks _ _ _ _ hk
+        have := ih _ _ _ _ ha
+        omega
+    cases vk with
+    | bool =>
+      simp only [decBody] at h
+      split at h
+      · simp at h
+      · rename_i b bs' hb
+        simp at h; obtain ⟨rfl, rfl⟩ := h
+        have := decBool_ok _ _ _ hb; subst this
+        simp [Value.nodes]; omega
+    | int k =>
+      simp only [decBody] at h
+      split at h
+      · simp at h
+      · rename_i b bs' hb
+        simp at h; obtain ⟨rfl, rfl⟩ := h
+        have := decInt_ok _ _ _ _ hb; subst this
+        have := k.width_pos
+        simp [Value.nodes, leBytes_length]; omega
+    | string =>
+      simp only [decBody] at h
+      split at h
+      · simp at h
+      · rename_i b bs' hb
+        simp at h; obtain ⟨rfl, rfl⟩ := h
+        obtain ⟨_, _, rfl⟩ := decString_ok _ _ _ _ hb
+        have := sizeBytes_length_pos b.length
+        simp [Value.nodes]; omega
+    | custom x =>
+      simp only [decBody] at h
+      split at h
+      · simp at h
+      · rename_i b bs' hb
+        simp at h; obtain ⟨rfl, rfl⟩ := h
+        have := hc _ _ _ _ hb
+        simp [Value.nodes]; omega
+    | tuple =>
+      simp only [decBody] at h
+      split at h
+      · simp at h
+      · rename_i len bs1 h1
+        split at h
+        · simp at h
+        · rename_i fs bs2 h2
+          simp at h; obtain ⟨rfl, rfl⟩ := h
+          have := readSize_shrinks _ _ _ h1
+          have := decMany_size _ Value.nodes hfield _ _ _ _ h2
+          simp [Value.nodes, nodesList_eq]; omega
+    | enum =>
+      simp only [decBody] at h
+      split at h
+      · simp at h
+      · rename_i d bs0 h0
+        split at h
+        · simp at h
+        · rename_i len bs1 h1
+          split at h
+          · simp at h
+          · rename_i fs bs2 h2
+            simp at h; obtain ⟨rfl, rfl⟩ := h
+            have := readByte_shrinks _ _ _ h0
+            have := readSize_shrinks _ _ _ h1
+            have := decMany_size _ Value.nodes hfield _ _ _ _ h2
+            simp [Value.nodes, nodesList_eq]; omega
+    | array =>
+      simp only [decBody] at h
+      split at h
+      · simp at h
+      · rename_i ek bs0 h0
+        split at h
+        · simp at h
+        · rename_i len bs1 h1
+          split at h
+          · simp at h
+          · rename_i fs bs2 h2
+            simp at h; obtain ⟨rfl, rfl⟩ := h
+            have := readValueKind_shrinks _ _ _ _ h0
+            have := readSize_shrinks _ _ _ h1
+            have := decMany_size _ Value.nodes (ih ek) _ _ _ _ h2
+            simp [Value.nodes, nodesList_eq]; omega
+    | map =>
+      simp only [decBody] at h
+      split at h
+      · simp at h
+      · rename_i kk bs0 h0
+        split at h
+        · simp at h
+        · rename_i vk bs00 h00
+          split at h
+          · simp at h
+          · rename_i len bs1 h1
+            split at h
+            · simp at h
+            · rename_i es bs2 h2
+              simp at h; obtain ⟨rfl, rfl⟩ := h
+              have := readValueKind_shrinks _ _ _ _ h0
+              have := readValueKind_shrinks _ _ _ _ h00
+              have := readSize_shrinks _ _ _ h1
+              have hentry : ∀ bs (e : Value X Y × Value X Y) rest, decEntry kk vk (decBody F max r) bs = .ok (e, rest) →
+                  (e.1.nodes + e.2.nodes) + rest.length ≤ bs.length := by
+                intro bs e rest he
+                simp only [decEntry] at he
+                split at he
+                · simp at he
+                · rename_i k b' hk
+                  split at he
+                  · simp at he
+                  · rename_i v b'' hv
+                    simp at he; obtain ⟨rfl, rfl⟩ := he
+                    have := ih _ _ _ _ hk
+                    have := ih _ _ _ _ hv
+                    simp only []; omega
+              have := decMany_size _ (fun (e : Value X Y × Value X Y) => e.1.nodes + e.2.nodes) hentry _ _ _ _ h2
+              simp [Value.nodes, nodesEntries_eq]; omega
 end Radix.Sbor
